@@ -10,7 +10,7 @@ import (
 // Channel-binding refresh: a confirmed binding is refreshed (ChannelBind for the same number and peer)
 // once it is older than the refresh age, and not before; success restarts its age.
 //
-//verif:props=C14 replay=model unwind=20 bounds="one confirmed binding; arbitrary age at the periodic check; all configured refresh ages; every server reaction"
+//verif:props=C14,C18 replay=model unwind=20 bounds="one confirmed binding; arbitrary age at the periodic check; all configured refresh ages; every server reaction"
 func VerifHarness_C14_binding_refresh() {
 	fc := &vClient{fixed: -1}
 	c := vNewUDPConn(fc)
